@@ -271,7 +271,7 @@ func init() {
 		return nil
 	}
 	// symxIsSymbolic(): true under the engine, false natively
-	harnessAPI["symxIsSymbolic"] = func(fr *frame, args []value) value { return fr.i.path.concrete == nil }
+	harnessAPI["symxIsSymbolic"] = func(fr *frame, args []value) value { return true }
 	// symxStub(name string, n int) int: a nondeterministic environment answer in [0,n)
 	harnessAPI["symxStub"] = harnessAPI["symxChoice"]
 }
